@@ -32,6 +32,11 @@ pub enum Op {
     ReadBody(usize),
     DropBody(usize),
     NewRequest,
+    /// a request without a body (END_STREAM on the head)
+    NewGet,
+    DropResponse(usize),
+    /// the (only) SendRequest goes
+    DropSendRequest,
     SendPing,
     PollPong,
     Quit,
@@ -110,6 +115,36 @@ impl Helper {
                     }
                 }
                 res
+            }
+            Op::NewGet => {
+                let mut res = "no SendRequest".to_string();
+                if let Some(sr) = self.sr.as_mut() {
+                    match guarded(&mut panics, "poll_ready", || sr.poll_ready(&mut cx)) {
+                        Some(Poll::Ready(Ok(()))) => match guarded(&mut panics, "send_request", || sr.send_request(simple_request("/g", false), true)) {
+                            Some(Ok((rf, ss))) => {
+                                let sid = rf.stream_id().as_u32();
+                                self.reqs.push(HReq { rf: Some(rf), ss: Some(ss), body: None, snap: ReqSnap { sid, has_rf: true, has_ss: true, eos: true, ..Default::default() } });
+                                res = format!("opened {}", sid);
+                            }
+                            Some(Err(e)) => res = format!("send_request: {}", crate::scen::err_text(&e)),
+                            None => res = "panic".into(),
+                        },
+                        Some(Poll::Ready(Err(e))) => res = format!("poll_ready: {}", crate::scen::err_text(&e)),
+                        Some(Poll::Pending) => res = "poll_ready: pending".into(),
+                        None => res = "panic".into(),
+                    }
+                }
+                res
+            }
+            Op::DropResponse(k) => {
+                let Some(r) = self.reqs.get_mut(k) else { return "n/a".into() };
+                safe_drop(&mut panics, "ResponseFuture", r.rf.take());
+                r.snap.has_rf = false;
+                "dropped".into()
+            }
+            Op::DropSendRequest => {
+                safe_drop(&mut panics, "SendRequest", self.sr.take());
+                "dropped".into()
             }
             Op::SendData(k, n, eos) => {
                 let seq = self.seq;
@@ -417,11 +452,46 @@ pub fn op_enabled(s: &Snap, op: &Op) -> bool {
         Op::PollResponse(k) => r(k).map(|r| r.has_rf).unwrap_or(false),
         Op::ReadBody(k) => r(k).map(|r| r.has_body && r.recv_done.is_none()).unwrap_or(false),
         Op::DropBody(k) => r(k).map(|r| r.has_body).unwrap_or(false),
-        Op::NewRequest => s.sr_alive && s.reqs.len() < 3,
+        Op::NewRequest | Op::NewGet => s.sr_alive && s.reqs.len() < 3,
+        Op::DropResponse(k) => r(k).map(|r| r.has_rf).unwrap_or(false),
+        Op::DropSendRequest => s.sr_alive,
         Op::SendPing => s.ping != 1 && s.ping_err.is_none(),
         Op::PollPong => s.ping == 1,
         Op::Quit => false,
     }
+}
+
+/// the hook: at a transport callback inside the connection's poll another thread uses a handle
+fn install_hook(t: &mut T2, helper: &Arc<Mutex<HelperClient>>, armed: &Arc<AtomicBool>, injected: &Arc<Mutex<Vec<String>>>, menu: Vec<Op>) {
+    let weak = Arc::downgrade(&t.sh);
+    let helper = helper.clone();
+    let armed = armed.clone();
+    let injected = injected.clone();
+    let hook: Arc<dyn Fn(&'static str) + Send + Sync> = Arc::new(move |kind| {
+        if !armed.load(Ordering::SeqCst) || DEADLOCKS.load(Ordering::SeqCst) >= 10 {
+            return;
+        }
+        let Some(sh) = weak.upgrade() else { return };
+        let mut h = helper.lock().unwrap();
+        if h.dead.is_some() {
+            return;
+        }
+        let enabled: Vec<&Op> = menu.iter().filter(|o| op_enabled(&h.snap, o)).collect();
+        if enabled.is_empty() {
+            return;
+        }
+        let c = sh.lock().unwrap().chooser.choose(tag::APP, 1 + enabled.len(), true);
+        if c == 0 {
+            return;
+        }
+        armed.store(false, Ordering::SeqCst);
+        let op = enabled[c - 1].clone();
+        let returned = h.call(op.clone());
+        injected.lock().unwrap().push(format!("{:?} during {} -> {}", op, kind, if returned { h.snap.last.clone() } else { "never returned".to_string() }));
+    });
+    let mut s = t.sh.lock().unwrap();
+    s.hook = Some(hook);
+    s.hook_side = Side::Client;
 }
 
 fn wire_data(t: &T2, sid: u32, from_subject: bool) -> Vec<u8> {
@@ -459,39 +529,7 @@ impl Model for ThreadModel {
         let helper = Arc::new(Mutex::new(hc));
         let armed = Arc::new(AtomicBool::new(false));
         let injected = Arc::new(Mutex::new(vec![]));
-        // the hook: at a transport callback inside the connection's poll another thread uses a handle
-        {
-            let weak = Arc::downgrade(&t.sh);
-            let helper = helper.clone();
-            let armed = armed.clone();
-            let injected = injected.clone();
-            let menu = self.inject_menu.clone();
-            let hook: Arc<dyn Fn(&'static str) + Send + Sync> = Arc::new(move |kind| {
-                if !armed.load(Ordering::SeqCst) || DEADLOCKS.load(Ordering::SeqCst) >= 10 {
-                    return;
-                }
-                let Some(sh) = weak.upgrade() else { return };
-                let mut h = helper.lock().unwrap();
-                if h.dead.is_some() {
-                    return;
-                }
-                let enabled: Vec<&Op> = menu.iter().filter(|o| op_enabled(&h.snap, o)).collect();
-                if enabled.is_empty() {
-                    return;
-                }
-                let c = sh.lock().unwrap().chooser.choose(tag::APP, 1 + enabled.len(), true);
-                if c == 0 {
-                    return;
-                }
-                armed.store(false, Ordering::SeqCst);
-                let op = enabled[c - 1].clone();
-                let returned = h.call(op.clone());
-                injected.lock().unwrap().push(format!("{:?} during {} -> {}", op, kind, if returned { h.snap.last.clone() } else { "never returned".to_string() }));
-            });
-            let mut s = t.sh.lock().unwrap();
-            s.hook = Some(hook);
-            s.hook_side = Side::Client;
-        }
+        install_hook(t, &helper, &armed, &injected, self.inject_menu.clone());
         t.drive(50);
         let mut w = World { helper, armed, injected, acct: FlowAcct::new(Side::Client), life: Lifecycle::new(Side::Client), peer_sent: vec![vec![]; 3], peer_seq: 101, peer_responded: vec![false; 3], peer_ended: vec![false; 3], peer_rst: vec![false; 3], pongs: 0 };
         if self.mid {
@@ -778,6 +816,246 @@ impl Model for ThreadModel {
     }
 }
 
+// ---------------------------------------------------------------------------------------------
+// the end of an idle client connection, with the last handles dropped on the second thread - also inside the poll
+
+#[derive(Clone, Debug)]
+pub enum IEv {
+    App(Op),
+    PeerRespondEos(usize),
+    Drive,
+}
+
+/// One SendRequest, up to two body-less requests; the peer answers with a complete response. Handles are polled, read and
+/// dropped on the second thread between polls or - at most `max_injections` times - at a transport callback inside the
+/// connection's poll. Oracle (epilogue, from every state): whatever is still held is dropped (between polls), what the peer
+/// still owes is sent, and then - with no further input - the connection must send GOAWAY(NO_ERROR), shut down and
+/// complete with Ok: the guarantee of C19, under C20's interleavings.
+pub struct IdleModel {
+    pub events: Vec<IEv>,
+    pub inject_menu: Vec<Op>,
+    pub name: &'static str,
+    pub max_injections: usize,
+    /// start from an exchange that is complete on the wire with the response future resolved (SendStream, RecvStream held)
+    pub mid: bool,
+}
+
+impl IdleModel {
+    pub fn new(name: &'static str, mid: bool) -> IdleModel {
+        let mut ev = vec![IEv::App(Op::NewGet)];
+        let mut menu = vec![];
+        for k in 0..2 {
+            for op in [Op::PollResponse(k), Op::ReadBody(k), Op::DropBody(k), Op::DropSend(k), Op::DropResponse(k)] {
+                ev.push(IEv::App(op.clone()));
+                menu.push(op);
+            }
+            ev.push(IEv::PeerRespondEos(k));
+        }
+        ev.push(IEv::App(Op::DropSendRequest));
+        menu.push(Op::DropSendRequest);
+        ev.push(IEv::Drive);
+        IdleModel { events: ev, inject_menu: menu, name, max_injections: 2, mid }
+    }
+}
+
+fn idle_op_enabled(s: &Snap, op: &Op) -> bool {
+    match op {
+        Op::NewGet => s.sr_alive && s.reqs.len() < 2,
+        _ => op_enabled(s, op),
+    }
+}
+
+impl Model for IdleModel {
+    type World = World;
+    fn name(&self) -> &'static str {
+        self.name
+    }
+    fn cfg(&self) -> T2Cfg {
+        T2Cfg { role: Side::Client, peer_settings: vec![], client: Some(client::Builder::new()), server: None, policy: IoPolicy::default() }
+    }
+    fn init(&self, t: &mut T2) -> World {
+        let sr = t.send_request.take().unwrap();
+        let mut hc = HelperClient::spawn(sr, None);
+        if self.mid {
+            hc.call(Op::NewGet);
+        }
+        let helper = Arc::new(Mutex::new(hc));
+        let armed = Arc::new(AtomicBool::new(false));
+        let injected = Arc::new(Mutex::new(vec![]));
+        install_hook(t, &helper, &armed, &injected, self.inject_menu.clone());
+        t.drive(50);
+        let mut w = World { helper, armed, injected, acct: FlowAcct::new(Side::Client), life: Lifecycle::new(Side::Client), peer_sent: vec![vec![]; 3], peer_seq: 101, peer_responded: vec![false; 3], peer_ended: vec![false; 3], peer_rst: vec![false; 3], pongs: 0 };
+        if self.mid {
+            let e = self.events.iter().position(|e| matches!(e, IEv::PeerRespondEos(0))).unwrap();
+            self.apply(t, &mut w, e);
+            t.drive(50);
+            w.helper.lock().unwrap().call(Op::PollResponse(0));
+        }
+        w
+    }
+    fn n_events(&self) -> usize {
+        self.events.len()
+    }
+    fn event_name(&self, e: usize) -> String {
+        format!("{:?}", self.events[e])
+    }
+    fn enabled(&self, t: &T2, w: &World, e: usize) -> bool {
+        let h = w.helper.lock().unwrap();
+        if h.dead.is_some() || !t.conn_alive() {
+            return false;
+        }
+        let s = &h.snap;
+        let on_wire = |k: usize| s.reqs.get(k).map(|r| t.subject_frames().iter().any(|f| matches!(&f.parsed, Ok(Parsed::Headers { sid, .. }) if *sid == r.sid))).unwrap_or(false);
+        match &self.events[e] {
+            IEv::App(op) => idle_op_enabled(s, op),
+            IEv::PeerRespondEos(k) => on_wire(*k) && !w.peer_responded[*k] && t.rst_sent(s.reqs[*k].sid).is_empty(),
+            IEv::Drive => true,
+        }
+    }
+    fn apply(&self, t: &mut T2, w: &mut World, e: usize) {
+        match self.events[e].clone() {
+            IEv::App(op) => {
+                w.helper.lock().unwrap().call(op);
+                t.events += 1;
+            }
+            IEv::PeerRespondEos(k) => {
+                let sid = w.helper.lock().unwrap().snap.reqs[k].sid;
+                t.peer_response(sid, "200", false);
+                let b = vec![w.peer_seq; 30];
+                w.peer_seq += 1;
+                t.peer_send(&wf::data(sid, &b, true));
+                w.peer_sent[k].extend_from_slice(&b);
+                w.peer_responded[k] = true;
+                w.peer_ended[k] = true;
+            }
+            IEv::Drive => {
+                let n = w.injected.lock().unwrap().len();
+                w.armed.store(n < self.max_injections, Ordering::SeqCst);
+                t.drive(200);
+                w.armed.store(false, Ordering::SeqCst);
+            }
+        }
+        t.catch_up();
+    }
+    fn invariant(&self, t: &mut T2, w: &mut World) -> V3 {
+        let mut v = vec![];
+        t.catch_up();
+        let (snap, dead) = {
+            let h = w.helper.lock().unwrap();
+            (h.snap.clone(), h.dead.clone())
+        };
+        let inj = w.injected.lock().unwrap().clone();
+        let ctx = if inj.is_empty() { String::new() } else { format!(" (operations on the second thread inside the connection's poll: {:?})", inj) };
+        if let Some(d) = dead {
+            v.push(("C20.deadlock".to_string(), d.split(' ').next().unwrap_or("").chars().filter(|c| c.is_alphabetic()).collect(), format!("{}{}", d, ctx)));
+        }
+        for p in &snap.panics {
+            if !t.panics.contains(p) {
+                t.panics.push(p.clone());
+            }
+        }
+        w.life.update(&t.mon);
+        for x in w.life.violations.drain(..) {
+            v.push(("C20.stream-lifecycle".into(), x.chars().filter(|c| !c.is_ascii_digit()).take(60).collect(), format!("{}{}", x, ctx)));
+        }
+        for (k, r) in snap.reqs.iter().enumerate() {
+            let sent = &w.peer_sent[k.min(2)];
+            if r.received.len() > sent.len() || r.received[..] != sent[..r.received.len()] {
+                v.push(("C20.received-data-not-sequential".into(), "order".into(), format!("stream {}: the application read {} octets that are not a prefix of the {} octets the peer sent{}", r.sid, r.received.len(), sent.len(), ctx)));
+            }
+        }
+        v
+    }
+    fn epilogue(&self, t: &mut T2, w: &mut World) -> V3 {
+        let mut v = vec![];
+        if !t.conn_alive() && t.conn_result.as_deref() != Some("ok") || w.helper.lock().unwrap().dead.is_some() {
+            return v;
+        }
+        w.armed.store(false, Ordering::SeqCst);
+        t.drive(300);
+        // the peer answers what it has not answered, the application lets go of everything (between polls)
+        let snap = w.helper.lock().unwrap().snap.clone();
+        for (k, r) in snap.reqs.iter().enumerate() {
+            let on_wire = t.subject_frames().iter().any(|f| matches!(&f.parsed, Ok(Parsed::Headers { sid, .. }) if *sid == r.sid));
+            if on_wire && !w.peer_responded[k] && t.rst_sent(r.sid).is_empty() && t.conn_alive() {
+                let e = self.events.iter().position(|e| matches!(e, IEv::PeerRespondEos(kk) if *kk == k)).unwrap();
+                self.apply(t, w, e);
+            }
+        }
+        t.drive(300);
+        for (k, r) in snap.reqs.iter().enumerate() {
+            for op in [Op::DropResponse(k), Op::DropSend(k), Op::DropBody(k)] {
+                let _ = r;
+                let enabled = op_enabled(&w.helper.lock().unwrap().snap, &op);
+                if enabled {
+                    w.helper.lock().unwrap().call(op);
+                }
+            }
+        }
+        if w.helper.lock().unwrap().snap.sr_alive {
+            w.helper.lock().unwrap().call(Op::DropSendRequest);
+        }
+        t.drive(300);
+        t.catch_up();
+        v.extend(self.invariant(t, w));
+        if !t.panics.is_empty() {
+            return v;
+        }
+        let inj = w.injected.lock().unwrap().clone();
+        let ctx = if inj.is_empty() { String::new() } else { format!(" (operations on the second thread inside the connection's poll: {:?})", inj) };
+        match &t.conn_result {
+            Some(r) if r == "ok" => {
+                if !matches!(t.goaway_sent(), Some((_, 0))) {
+                    v.push(("C20.idle-close".into(), "no-goaway".into(), format!("the idle client connection completed without GOAWAY(NO_ERROR): last GOAWAY {:?}{}", t.goaway_sent(), ctx)));
+                }
+            }
+            other => {
+                v.push(("C20.idle-close".into(), "not-closed".into(), format!("every handle is dropped and every stream has ended, nothing more will arrive, yet the connection future has not completed successfully (result {:?}, woken: {}){}", other, t.conn_flag.is_set(), ctx)));
+            }
+        }
+        v
+    }
+    fn digest_extra(&self, _t: &T2, w: &World) -> String {
+        let h = w.helper.lock().unwrap();
+        let s = &h.snap;
+        let mut out = format!("sr={} inj={}", s.sr_alive, w.injected.lock().unwrap().len());
+        for (k, r) in s.reqs.iter().enumerate() {
+            out.push_str(&format!("|{}:rf={} ss={} body={} recv={} done={:?} resp={:?} peer={}", r.sid, r.has_rf, r.has_ss, r.has_body, r.received.len(), r.recv_done, r.response, w.peer_responded[k.min(2)]));
+        }
+        out
+    }
+    fn teardown(&self, mut t: T2, w: World) -> Vec<String> {
+        t.sh.lock().unwrap().hook = None;
+        let mut panics = std::mem::take(&mut t.panics);
+        {
+            let mut h = w.helper.lock().unwrap();
+            if h.dead.is_none() {
+                h.call(Op::Quit);
+                for p in &h.snap.panics {
+                    if !panics.contains(p) {
+                        panics.push(p.clone());
+                    }
+                }
+            } else {
+                std::mem::forget(std::mem::replace(&mut t.conn, Conn::Gone));
+            }
+        }
+        t.panics = panics;
+        t.finish()
+    }
+    fn counters(&self, _t: &T2, w: &World) -> Vec<(&'static str, u64)> {
+        let inj = w.injected.lock().unwrap();
+        vec![
+            ("operations_on_second_thread", w.helper.lock().unwrap().ops),
+            ("operations_inside_connection_poll", inj.len() as u64),
+            ("last_handle_dropped_inside_connection_poll", inj.iter().filter(|s| s.starts_with("DropSendRequest")).count() as u64),
+            ("injected_during_write", inj.iter().filter(|s| s.contains("during write")).count() as u64),
+            ("injected_during_flush", inj.iter().filter(|s| s.contains("during flush")).count() as u64),
+            ("injected_during_read", inj.iter().filter(|s| s.contains("during read")).count() as u64),
+        ]
+    }
+}
+
 /// runs the loom models over the real ping_pong.rs in a child process each (a failing loom model panics, possibly twice)
 /// loom over the real ping_pong.rs. `prop` "C07" runs the models about the end of the connection ("end-*"), "C20" all of them.
 pub fn run_pingloom(out: &mut Outcome, quick: bool, prop: &str) -> Vec<Violation> {
@@ -837,9 +1115,13 @@ pub fn run(ctx: &Ctx) -> Outcome {
     let m = ThreadModel::new(if quick { "threads-q" } else { "threads-t" }, quick, false);
     let m2 = ThreadModel::new(if quick { "threads-mid-q" } else { "threads-mid-t" }, quick, true);
     let maxd = if quick { 6 } else { 9 };
-    let rep = search(ctx, &m, "C20", maxd, ctx.tier.budget_s() * 0.45, true);
-    let rep2 = search(ctx, &m2, "C20", maxd, ctx.tier.budget_s() * 0.9, true);
-    fill_outcome(&mut out, &[(m.name, &rep), (m2.name, &rep2)]);
+    let rep = search(ctx, &m, "C20", maxd, ctx.tier.budget_s() * 0.4, true);
+    let rep2 = search(ctx, &m2, "C20", maxd, ctx.tier.budget_s() * 0.8, true);
+    let m3 = IdleModel::new("threads-idle", false);
+    let m4 = IdleModel::new("threads-idle-mid", true);
+    let rep3 = search(ctx, &m3, "C20", if quick { 9 } else { 12 }, ctx.tier.budget_s() * 1.05, true);
+    let rep4 = search(ctx, &m4, "C20", if quick { 9 } else { 12 }, ctx.tier.budget_s() * 1.2, true);
+    fill_outcome(&mut out, &[(m.name, &rep), (m2.name, &rep2), (m3.name, &rep3), (m4.name, &rep4)]);
     out.set("exhaustive", json!(false));
     out.set("alphabet", json!({"events": m.events.iter().map(|e| format!("{:?}", e)).collect::<Vec<_>>(), "operations_injected_inside_poll": m.inject_menu.iter().map(|e| format!("{:?}", e)).collect::<Vec<_>>()}));
     out.set("rule", json!("X4 = explicit-state search (X2) on T2 with a second OS thread: the real client's SendRequest, SendStream, ResponseFuture, RecvStream (with its flow-control handle) and PingPong handles live on a helper thread and every operation on them runs there while the connection is polled on the main thread; a baton makes the interleaving a choice. Besides operations between polls, during every Drive event one operation of the menu may run at any transport callback (write / flush / read) inside Connection::poll - the points where the connection task has dropped its internal locks around I/O, including the window between staging a DATA frame and reclaiming its unwritten rest after a partial write (DriveBudget). At most 2 such injections per execution. Invariants in every state: no panic, no operation blocked on a library lock (4 s watchdog = deadlock), DATA on the wire is a prefix of what send_data accepted in call order, what the application reads is a prefix of what the peer sent, flow-control (C02 accountant) and stream life-cycle (C04 automaton) monitors on the wire, receive windows never over-credited. Epilogue from every new state: windows opened wide, streams finished, quiescence: every accepted octet and END_STREAM is on the wire, an outstanding user ping completes. Plus loom over the real ping_pong.rs (see harness pingloom)"));
@@ -847,6 +1129,8 @@ pub fn run(ctx: &Ctx) -> Outcome {
     let mut vs = VioSet::default();
     vs.merge(rep.agg.vios);
     vs.merge(rep2.agg.vios);
+    vs.merge(rep3.agg.vios);
+    vs.merge(rep4.agg.vios);
     for v in run_pingloom(&mut out, quick, "C20") {
         vs.add(v);
     }
@@ -863,6 +1147,12 @@ pub fn replay(v: &serde_json::Value) -> Option<bool> {
         let m = v["model"].as_str().unwrap_or("");
         let st = std::process::Command::new("/verif/pingloom/target/release/pingloom").args(["run", m]).status().ok()?;
         return Some(!st.success());
+    }
+    if h == "x2.threads-idle" {
+        return Some(replay_model(&IdleModel::new("threads-idle", false), "C20", v));
+    }
+    if h == "x2.threads-idle-mid" {
+        return Some(replay_model(&IdleModel::new("threads-idle-mid", true), "C20", v));
     }
     for quick in [true, false] {
         for mid in [false, true] {
